@@ -925,6 +925,27 @@ impl SctpTransport {
         (transport, runner)
     }
 
+    /// A pre-negotiated channel that is registered after the association came up is
+    /// open at once: the handshake completion only announces the channels that exist
+    /// at that moment. The channel must already be in the registry, so that exactly
+    /// one of the two places wins the Connecting -> Open transition.
+    pub fn open_negotiated_channel(&self, dc: &DataChannel) {
+        if dc.negotiated
+            && *self.inner.state.lock() == SctpState::Connected
+            && dc
+                .state
+                .compare_exchange(
+                    DataChannelState::Connecting as usize,
+                    DataChannelState::Open as usize,
+                    Ordering::SeqCst,
+                    Ordering::SeqCst,
+                )
+                .is_ok()
+        {
+            dc.send_event(DataChannelEvent::Open);
+        }
+    }
+
     pub async fn send_data(&self, channel_id: u16, data: &[u8]) -> Result<()> {
         self.inner.send_data(channel_id, data).await
     }
